@@ -11,8 +11,13 @@
      - deliverable data exists exactly when some non-quarantined member is ahead of the digest;
      - the frontier of every copy in every reachable state is bounded by its owner's max version,
        so strict advances are bounded in number (measure [frontier_measure]).
-   Not mechanised: the composition of these into "any fair sequence of loss-free handshakes
-   converges within the bound" (a round-based fairness argument over [gstep]); it is exercised by
+     - the potential argument (Potential.v): processing any message never lowers a node's
+       potential, a productive exchange raises it by at least one, and along any history of a node
+       the number of rises is at most (members known) * (V+1)^2.
+   Not mechanised: the last, purely combinatorial step — "every fair round of a non-converged
+   quiet world contains a productive exchange (deliverable_iff_ahead + quiet_exchange_progress),
+   so there are at most sum-of-bounds non-converged rounds" — as a statement over schedules of
+   the global step relation; it is exercised by
    the correspondence suite `conv` (fair rounds after arbitrary histories, on the implementation
    and the model) whose monitor checks exactly the two consequences: every fair round of a
    non-converged world strictly increases the measure, and the world converges.
@@ -21,7 +26,7 @@
 From Coq Require Import Lia Permutation.
 From ChitchatModel Require Import Base SMap Ids Bytes Params NodeState Stream DeltaWire Message Cluster
   FD Chitchat World SMap_lemmas NodeState_lemmas Builder_lemmas Agreement Inv DeltaRefine Compute_lemmas
-  Prefix_lemmas NodeInv Codec_lemmas Emit_lemmas Truth NodeTruth Weak Reach Progress Quiet.
+  Prefix_lemmas NodeInv Codec_lemmas Emit_lemmas Truth NodeTruth Weak Reach Progress Quiet Potential.
 
 Section C01.
   Variable zc : bytes -> option bytes.
@@ -131,6 +136,39 @@ Section C01.
     split; [exact Hgc|]. split; [exact Hm|]. apply frontier_measure_bound; assumption.
   Qed.
 
+  (* ---- the potential argument: "within a bounded number of handshakes" ----
+     [potential V n] = sum over the copies n holds of (frontier measure + 1). *)
+  (* (i) processing ANY grammar-valid message never lowers it: every copy is still there with a
+         frontier at least as large *)
+  Theorem C01_potential_never_decreases : forall V now n m ord n' reply evs,
+    node_inv n -> msg_wf m -> versions_below V n -> versions_below V n' ->
+    process_message zc now n m ord = Ok (n', reply, evs) -> potential V n <= potential V n'.
+  Proof. exact (potential_never_decreases zc). Qed.
+
+  (* (ii) a complete exchange of a quiet initiator with a responder holding deliverable data
+          raises it by at least one *)
+  Theorem C01_potential_rises_on_exchange : forall V now now' a b ord ord' b' dgb x evs n rest a' reply evs',
+    node_inv a -> node_inv b -> no_memory a -> scheduled now a = [] ->
+    process_message zc now b (create_syn_message now a) ord = Ok (b', Some (SynAck dgb x), evs) ->
+    let dg := compute_digest (nd_cs a) [] in
+    let b1 := report_heartbeats_in_digest now (update_self_heartbeat b) dg in
+    let sched := scheduled now b1 in
+    let mtu := P_MAX_UDP - (P_RESERVE_SYNACK + digest_len (compute_digest (nd_cs b1) sched)) in
+    arrange ord (stale_nodes (nd_cs b1) dg sched) = Some (n :: rest) ->
+    P_MIN_MTU <= mtu -> room mtu n -> sn_id n <> self_id a ->
+    process_message zc now' a (SynAck dgb x) ord' = Ok (a', reply, evs') ->
+    versions_below V a -> versions_below V a' ->
+    potential V a + 1 <= potential V a'.
+  Proof. exact (potential_rises_on_exchange zc zc_len). Qed.
+
+  (* (iii) along any history of a node — any messages, instants, shuffle outcomes — the number of
+           steps that raise its potential, hence the number of productive exchanges it takes part
+           in, is at most (members it knows at the end) * (V+1)^2, V bounding every version *)
+  Theorem C01_productive_steps_bounded : forall V l nlast,
+    history zc l -> Forall node_inv l -> Forall (versions_below V) l -> last l nlast = nlast -> l <> [] ->
+    rises (map (potential V) l) <= N.of_nat (length (cs_nodes (nd_cs nlast))) * (V + 1) * (V + 1).
+  Proof. exact (productive_steps_bounded zc). Qed.
+
   Theorem C01_strict_advance_raises_measure : forall V c c',
     frontier_lt c c' -> c_max c <= V -> c_max c' <= V -> frontier_measure V c < frontier_measure V c'.
   Proof. exact frontier_measure_lt. Qed.
@@ -169,3 +207,6 @@ Print Assumptions C01_quiet_exchange_progress.
 Print Assumptions C01_offer_is_applicable.
 Print Assumptions C01_frontier_bounded_by_owner.
 Print Assumptions C01_strict_advance_raises_measure.
+Print Assumptions C01_potential_never_decreases.
+Print Assumptions C01_potential_rises_on_exchange.
+Print Assumptions C01_productive_steps_bounded.
